@@ -74,7 +74,7 @@ def params_for(A, orientation, rng=None, **kw):
     vals = {}
     if rng is not None:
         for key in NUMERIC_PARAMS:
-            vals[key] = rng.choice([1, 2, 3, 4, 5, 7, 10, 12, 0.5, 2.5])
+            vals[key] = rng.choice([0.25, 0.5, 1, 2, 2.5, 3, 4, 5, 7, 10, 12, 20, 40])
     vals.update(kw)
     return A.rmodel.DrawParams(orientation=A.rmodel.Orientation[orientation], **vals)
 
